@@ -3,6 +3,7 @@ import MdIt.Drv.Conc
 import MdIt.Drv.Inst
 import MdIt.Drv.World
 import MdIt.Drv.Token
+import MdIt.Drv.Str
 open MdIt
 
 def handle (line : String) : String :=
@@ -14,6 +15,9 @@ def handle (line : String) : String :=
   | "world" :: rest => Drv.worldLine rest
   | "dictrt" :: rest => Drv.dictrtLine rest
   | "tree" :: rest => Drv.treeLine rest
+  | "normalize" :: rest => Drv.strLine "normalize" rest
+  | "cols" :: rest => Drv.strLine "cols" rest
+  | "quote" :: rest => Drv.strLine "quote" rest
   | _ => "bad-request"
 
 partial def loop (hin hout : IO.FS.Stream) : IO Unit := do
